@@ -16,6 +16,7 @@ import (
 	"os/exec"
 	"path/filepath"
 	"regexp"
+	"runtime"
 	"sort"
 	"strings"
 	"time"
@@ -53,8 +54,15 @@ var c06Contents = map[int64]map[string]string{
 	3: {"a": "1", "b": "2", "c": "3"},
 }
 
+// storeOf remembers the store of a prelude tree (single-threaded use between executions).
+var storeOf = map[*iavl.MutableTree]*vstore.Store{}
+
 func prelude(cfg c06Cfg) *iavl.MutableTree {
 	t, st := newTree(cfg)
+	for k := range storeOf {
+		delete(storeOf, k)
+	}
+	defer func() { storeOf[t] = st }()
 	must := func(err error) {
 		if err != nil {
 			panic(err)
@@ -330,6 +338,59 @@ func harnesses() []harness {
 				return strings.Join(append(rw.lines, re.lines...), "; ")
 			}
 		}},
+		{"H5 background pruning: writer(open async tree, SetCommitting, Set, SaveVersion, UnsetCommitting, DeleteVersionsTo(1), Close) || reader(v3) || pruner", func(cfg c06Cfg) ([]func(), func() string) {
+			base := prelude(cfg)
+			st := storeOf[base]
+			var rw, rr rec
+			ready := make(chan *iavl.ImmutableTree, 1)
+			var t2 *iavl.MutableTree
+			writer := func() {
+				t2 = iavl.NewMutableTree(st, cfg.Cache, !cfg.Fast, iavl.NewNopLogger(), iavl.AsyncPruningOption(true))
+				if _, err := t2.Load(); err != nil {
+					rw.add("writer: Load: %v", err)
+				}
+				it3, err := t2.GetImmutable(3)
+				if err != nil {
+					rw.add("writer: GetImmutable(3): %v", err)
+				}
+				vrt.Send(ready, it3)
+				t2.SetCommitting()
+				if _, err := t2.Set([]byte("a"), []byte("7")); err != nil {
+					rw.add("writer: Set(a): %v", err)
+				}
+				if _, v, err := t2.SaveVersion(); err != nil || v != 4 {
+					rw.add("writer: SaveVersion = %d, %v", v, err)
+				}
+				t2.UnsetCommitting()
+				if err := t2.DeleteVersionsTo(1); err != nil {
+					rw.add("writer: DeleteVersionsTo(1): %v", err)
+				}
+				if err := t2.Close(); err != nil {
+					rw.add("writer: Close: %v", err)
+				}
+			}
+			reader := func() {
+				it3 := vrt.Recv(ready)
+				if it3 == nil {
+					return
+				}
+				v, err := it3.Get([]byte("b"))
+				expectGet(&rr, "reader v3.Get(b)", v, err, c06Contents[3], "b")
+				_, v2, err := it3.GetWithIndex([]byte("c"))
+				expectGet(&rr, "reader v3.GetWithIndex(c)", v2, err, c06Contents[3], "c")
+			}
+			return []func(){writer, reader}, func() string {
+				// whatever the background pruner got done before Close: versions 2..4 are intact on a fresh instance
+				var re rec
+				t3 := iavl.NewMutableTree(st, 0, !cfg.Fast, iavl.NewNopLogger())
+				if _, err := t3.Load(); err != nil {
+					re.add("epilogue: Load on the store after Close: %v", err)
+				} else {
+					epilogue(&re, t3, map[int64]map[string]string{2: c06Contents[2], 3: c06Contents[3], 4: {"a": "7", "b": "2", "c": "3"}})
+				}
+				return strings.Join(append(append(rw.lines, rr.lines...), re.lines...), "; ")
+			}
+		}},
 		{"H6 reader1 || reader2 on the same held version (shared cached nodes)", func(cfg c06Cfg) ([]func(), func() string) {
 			t := prelude(cfg)
 			t3, _ := t.GetImmutable(3)
@@ -527,18 +588,23 @@ func init() {
 		perHarness := map[string]any{}
 		raceSigs := map[string]string{}
 		exhaustive := true
-		nshards := 8
 		type job struct {
 			hi, ci int
 			race   bool
 		}
 		var jobs []job
+		skipped := []string{}
 		for hi := range hs {
 			if strings.HasPrefix(hs[hi].name, "H4") && os.Getenv("VERIF_H4") != "1" {
+				skipped = append(skipped, hs[hi].name+": the export.go rewrite did not apply to this tree")
+				continue
+			}
+			if strings.HasPrefix(hs[hi].name, "H5") && os.Getenv("VERIF_H5") != "1" {
+				skipped = append(skipped, hs[hi].name+": the nodedb.go rewrite did not apply to this tree")
 				continue
 			}
 			for ci := range cfgs {
-				three := strings.HasPrefix(hs[hi].name, "H3") || strings.HasPrefix(hs[hi].name, "H4")
+				three := strings.HasPrefix(hs[hi].name, "H3") || strings.HasPrefix(hs[hi].name, "H4") || strings.HasPrefix(hs[hi].name, "H5")
 				if c.Tier == "quick" && three && ci != 1 && ci != 2 {
 					continue // quick: the 3-thread harnesses run under two configurations (cache 100 + index, cache 0 without)
 				}
@@ -548,78 +614,116 @@ func init() {
 				}
 			}
 		}
-		for _, j := range jobs {
-			if time.Now().After(c.Deadline) {
-				exhaustive = false
-				break
-			}
+		// every (job, shard) pair is one worker process; at most NumCPU of them run at a time
+		type task struct {
+			ji, k, n, b int
+			bin, logp   string
+		}
+		type wres struct {
+			ji  int
+			st  schedStats
+			err string
+		}
+		var tasks []task
+		bounds := make([]int, len(jobs))
+		logps := make([]string, len(jobs))
+		for ji, j := range jobs {
 			b := bound
 			bin := self
 			if j.race {
 				bin = raceBin
 				b = bound - 1
 			}
-			if strings.HasPrefix(hs[j.hi].name, "H3") || strings.HasPrefix(hs[j.hi].name, "H4") {
+			three := strings.HasPrefix(hs[j.hi].name, "H3") || strings.HasPrefix(hs[j.hi].name, "H4") || strings.HasPrefix(hs[j.hi].name, "H5")
+			if three {
 				b-- // three threads: one preemption less
 			}
 			if b < 1 {
 				b = 1
 			}
-			logp := filepath.Join(scratchRoot(), fmt.Sprintf("race-%d-%d", j.hi, j.ci))
-			type wres struct {
-				st  schedStats
-				err string
+			bounds[ji] = b
+			logps[ji] = filepath.Join(scratchRoot(), fmt.Sprintf("race-%d-%d", j.hi, j.ci))
+			n := 2
+			if three {
+				n = 8
 			}
-			ch := make(chan wres, nshards)
-			for k := 0; k < nshards; k++ {
-				go func(k int) {
-					cmd := exec.Command(bin, "C06worker", fmt.Sprint(j.hi), fmt.Sprint(j.ci), fmt.Sprint(b), fmt.Sprint(k), fmt.Sprint(nshards))
-					cmd.Env = append(os.Environ(), "GOMAXPROCS=2")
-					if j.race {
-						cmd.Env = append(cmd.Env, "GORACE=halt_on_error=0 exitcode=0 log_path="+logp, "VERIF_RACE_LOG="+logp)
-					}
-					var out, errb bytes.Buffer
-					cmd.Stdout, cmd.Stderr = &out, &errb
-					err := cmd.Run()
-					var r wres
-					sc := bufio.NewScanner(&out)
-					sc.Buffer(make([]byte, 1<<20), 1<<26)
-					found := false
-					for sc.Scan() {
-						if strings.HasPrefix(sc.Text(), "WORKER-RESULT ") {
-							_ = json.Unmarshal([]byte(strings.TrimPrefix(sc.Text(), "WORKER-RESULT ")), &r.st)
-							found = true
-						}
-					}
-					if err != nil || !found {
-						e := errb.String()
-						if len(e) > 600 {
-							e = e[:600]
-						}
-						r.err = fmt.Sprintf("worker %s shard %d failed: %v %s", hs[j.hi].name, k, err, e)
-					}
-					ch <- r
-				}(k)
+			for k := 0; k < n; k++ {
+				tasks = append(tasks, task{ji, k, n, b, bin, logps[ji]})
 			}
-			agg := schedStats{Outcomes: map[string]int{}, Races: map[string]string{}}
-			for k := 0; k < nshards; k++ {
-				r := <-ch
-				if r.err != "" {
-					rawViolation(c, res, r.err, nil)
-					continue
+		}
+		results := make(chan wres, len(tasks))
+		sem := make(chan struct{}, runtime.NumCPU())
+		for _, tk := range tasks {
+			tk := tk
+			go func() {
+				sem <- struct{}{}
+				defer func() { <-sem }()
+				j := jobs[tk.ji]
+				var r wres
+				r.ji = tk.ji
+				if time.Now().After(c.Deadline) {
+					r.err = "deadline"
+					results <- r
+					return
 				}
-				agg.Execs += r.st.Execs
-				if r.st.MaxPoints > agg.MaxPoints {
-					agg.MaxPoints = r.st.MaxPoints
+				cmd := exec.Command(tk.bin, "C06worker", fmt.Sprint(j.hi), fmt.Sprint(j.ci), fmt.Sprint(tk.b), fmt.Sprint(tk.k), fmt.Sprint(tk.n))
+				cmd.Env = append(os.Environ(), "GOMAXPROCS=2")
+				if j.race {
+					cmd.Env = append(cmd.Env, "GORACE=halt_on_error=0 exitcode=0 log_path="+tk.logp, "VERIF_RACE_LOG="+tk.logp)
 				}
-				for o, n := range r.st.Outcomes {
-					agg.Outcomes[o] += n
+				var out, errb bytes.Buffer
+				cmd.Stdout, cmd.Stderr = &out, &errb
+				err := cmd.Run()
+				sc := bufio.NewScanner(&out)
+				sc.Buffer(make([]byte, 1<<20), 1<<26)
+				found := false
+				for sc.Scan() {
+					if strings.HasPrefix(sc.Text(), "WORKER-RESULT ") {
+						_ = json.Unmarshal([]byte(strings.TrimPrefix(sc.Text(), "WORKER-RESULT ")), &r.st)
+						found = true
+					}
 				}
-				agg.Violations = append(agg.Violations, r.st.Violations...)
-				for s, w := range r.st.Races {
-					agg.Races[s] = w
+				if err != nil || !found {
+					e := errb.String()
+					if len(e) > 600 {
+						e = e[:600]
+					}
+					r.err = fmt.Sprintf("worker %s shard %d failed: %v %s", hs[j.hi].name, tk.k, err, e)
 				}
+				results <- r
+			}()
+		}
+		aggs := make([]schedStats, len(jobs))
+		for ji := range aggs {
+			aggs[ji] = schedStats{Outcomes: map[string]int{}, Races: map[string]string{}}
+		}
+		for range tasks {
+			r := <-results
+			if r.err == "deadline" {
+				exhaustive = false
+				continue
 			}
+			if r.err != "" {
+				rawViolation(c, res, r.err, nil)
+				continue
+			}
+			agg := &aggs[r.ji]
+			agg.Execs += r.st.Execs
+			if r.st.MaxPoints > agg.MaxPoints {
+				agg.MaxPoints = r.st.MaxPoints
+			}
+			for o, n := range r.st.Outcomes {
+				agg.Outcomes[o] += n
+			}
+			agg.Violations = append(agg.Violations, r.st.Violations...)
+			for s, w := range r.st.Races {
+				agg.Races[s] = w
+			}
+		}
+		for ji, j := range jobs {
+			agg := aggs[ji]
+			b := bounds[ji]
+			logp := logps[ji]
 			name := fmt.Sprintf("%s cache=%d fast=%v cold=%v race=%v bound=%d", hs[j.hi].name, cfgs[j.ci].Cache, cfgs[j.ci].Fast, cfgs[j.ci].Cold, j.race, b)
 			perHarness[name] = map[string]any{"schedules": agg.Execs, "max_scheduling_points": agg.MaxPoints, "distinct_outcomes": len(agg.Outcomes), "schedules_with_race_report": len(agg.Races)}
 			total.Execs += agg.Execs
@@ -642,10 +746,12 @@ func init() {
 						raceSigs[sig] = fmt.Sprintf("%s cache=%d fast=%v :: %s", hs[j.hi].name, cfgs[j.ci].Cache, cfgs[j.ci].Fast, rep)
 					}
 				}
-				ms, _ := filepath.Glob(logp + ".*")
-				for _, m := range ms {
-					_ = os.Remove(m)
-				}
+			}
+		}
+		for _, lp := range logps {
+			ms, _ := filepath.Glob(lp + ".*")
+			for _, m := range ms {
+				_ = os.Remove(m)
 			}
 		}
 		var sigs []string
@@ -661,11 +767,11 @@ func init() {
 		sort.Strings(sigs)
 		res.States, res.Transitions = total.Execs, total.Execs
 		res.Exhaustive = &exhaustive
-		res.Extra = map[string]any{"harnesses": perHarness, "preemption_bound": bound, "race_signatures": sigs, "race_build": raceBin != "",
+		res.Extra = map[string]any{"harnesses": perHarness, "skipped_harnesses": skipped, "preemption_bound": bound, "race_signatures": sigs, "race_build": raceBin != "",
 			"explanation_c06": "every schedule (choice sequence at lock acquisitions and storage calls) with at most the stated number of preemptions is executed on the real code; the -race build runs the same enumeration with the race detector active inside each schedule (the scheduler's hand-off uses raw futex calls from norace code and adds no happens-before edge)"}
 		res.Assumptions = []string{
 			"scheduling points: every Lock/RLock of the sync primitives used by iavl (rebuilt against the shim) and every storage call; code between two points runs atomically in the explorer (races inside such blocks are the race detector's job)",
-			"harnesses H1,H2,H3,H6: 2-3 threads, <= 3 operations each, one writer; export pinning (H4) and background pruning (H5) need the goroutine/channel rewriting and are listed as limits in DESIGN.md",
+			"harnesses H1-H6: 2-3 threads, <= 3 operations each, one writer; H4 (export pinning vs pruning: the exporter goroutine and its channel run under the scheduler) and H5 (background pruning loop, SetCommitting/UnsetCommitting) use the rewritten export.go / nodedb.go of the sched build and are skipped (recorded in skipped_harnesses) if the rewrite does not apply to the current tree",
 			"the storage is check/vstore (MemDB-like locking, snapshot iterators)",
 		}
 		return res
